@@ -1428,6 +1428,34 @@ mod c09_rings {
             j += 1;
         }
     }
+    // (X^p - 1) * a, out of place, into a LONGER result with stale contents (seed C02-3): limb j < a.size is rot_p(a_j) - a_j, limbs past a.size are ZERO, other column untouched
+    fn mul_xp_minus_one_case(p: i64) {
+        use crate::reference::vec_znx::vec_znx_mul_xp_minus_one;
+        const N: usize = 4;
+        let a = part(N, 1);
+        let mut u = 0;
+        while u < N {
+            // no i64 overflow in X^p*a - a (precondition of the limb-wise kernels)
+            kani::assume(a.at(0, 0)[u] > -(1i64 << 62) && a.at(0, 0)[u] < (1i64 << 62));
+            u += 1;
+        }
+        let mut res = part(N, 2);
+        let before = res.clone();
+        vec_znx_mul_xp_minus_one::<_, _, ZnxRef>(p, &mut res, 1, &a, 0);
+        let n = N as i64;
+        let q = p.rem_euclid(2 * n);
+        let mut t = 0;
+        while t < N {
+            // coefficient t of X^p * a: comes from coefficient s with s + q = t (mod 2N), sign flipped when wrapping past N an odd number of times
+            let src = (t as i64 - q).rem_euclid(2 * n);
+            let (s_idx, neg) = if src < n { (src as usize, false) } else { ((src - n) as usize, true) };
+            let rot = if neg { a.at(0, 0)[s_idx].wrapping_neg() } else { a.at(0, 0)[s_idx] };
+            assert!(res.at(1, 0)[t] == rot.wrapping_sub(a.at(0, 0)[t]), "C09:mul_xp_minus_one limb 0 == X^p*a - a");
+            assert!(res.at(1, 1)[t] == 0, "C09:mul_xp_minus_one: limbs of the result past the operand's are zero (no stale data)");
+            assert!(res.at(0, 0)[t] == before.at(0, 0)[t] && res.at(0, 1)[t] == before.at(0, 1)[t], "C09:mul_xp_minus_one leaves the other column untouched");
+            t += 1;
+        }
+    }
     macro_rules! rings_harness {
         ($name:ident, $body:expr) => {
             #[kani::proof]
@@ -1441,6 +1469,8 @@ mod c09_rings {
     rings_harness!(c09_merge_rings__g2_n1_s21_r2, merge_case::<2>(1, [2, 1], 2));
     rings_harness!(c09_merge_rings__g2_n1_s12_r3, merge_case::<2>(1, [1, 2], 3));
     rings_harness!(c09_merge_rings__g2_n2_s21_r2, merge_case::<2>(2, [2, 1], 2));
+    rings_harness!(c09_mul_xp_minus_one__n4_a1_r2_p1, mul_xp_minus_one_case(1));
+    rings_harness!(c09_mul_xp_minus_one__n4_a1_r2_pm5, mul_xp_minus_one_case(-5));
     // (split_ring in the same shapes exceeds 600 s in CBMC: the reference goes through znx_switch_ring + znx_rotate on a scratch limb; the unbounded Verus unit vec_znx_split stands alone)
 }
 
